@@ -3,13 +3,17 @@ import re
 from vlib import Prop
 from props.c16 import hx
 
-METHODS = ["GET", "POST", "PUT", "DELETE", "HEAD", "OPTIONS", "PATCH"]
+METHODS = ["GET", "POST", "PUT", "DELETE", "HEAD", "OPTIONS", "PATCH"]   # + CONNECT with its own target forms, below
 URIS = ["https://a.b/", "https://a.b/x?q=1", "http://example.com:8080/p/a/t/h", "https://[::1]:4433/%7Euser/index.html?a=b&c=d",
         "https://host.example/" + "seg/" * 20, "https://a.b/*", "https://xn--nxasmq6b.example/?", "https://user.example:1/a//b",
         # absolute-form targets with an empty path (with and without query): the receiver sees path "/"
         "https://www.example.com?lang=en&page=2", "https://a.b", "http://a.b:8080?x", "https://a.b?", "https://a.b/?b"]
 NAMES = ["x-a", "x-b", "accept", "content-type", "cookie", "x-long-header-name-with-many-characters", "te", "user-agent", "etag", "x-0"]
 STATUS = [200, 201, 204, 206, 301, 404, 418, 500, 599]
+# authority-form targets (plain CONNECT, RFC 9114 4.4: neither :scheme nor :path)
+AUTHORITIES = ["a.b:443", "example.com:80", "[::1]:4433", "proxy.example:8080", "xn--nxasmq6b.example:1"]
+# extended CONNECT (RFC 8441 / RFC 9220): the :protocol values h3 knows; only with ec=1 on both endpoints
+PROTOCOLS = ["webtransport", "connect-udp", "connect-ip", "websocket"]
 
 
 def hexs(s):
@@ -19,58 +23,105 @@ def hexs(s):
 class C01(Prop):
     id = "C01"
     thorough_rounds = 4   # thorough tier: this many independently seeded rounds of the random generators (duplicates dropped)
-    modules = ["H3.Props.C01"]
+    modules = ["H3.Props.C01", "H3.Lemmas.GenAgreeSend"]
     engines = ["e2e"]
     design_ref = "DESIGN.md section 7, C01"
     level_text = ("Lean composition theorems over the component models (H3.E2E glue: Message, wire, sendAll, recvPattern, "
-                  "deliver): C01_wire_of_send — for every well-formed message and EVERY family of write-acceptance scripts "
-                  "(partial writes, Pending anywhere; calls awaited, R-14) the request stream is handed exactly wire(m) "
-                  "(+ the grease frame if owed) and finished (from C14); C01_wire_is_valid_message — the RFC 9114 oracle reads "
-                  "wire(m) as [HEADERS section, DATA piece_1..piece_n, (HEADERS trailers)?] and a clean end, the sections "
-                  "RFC-9204-decode to pseudo fields ++ map iteration (C11, C12); C01_recv_of_wire — for EVERY transport "
-                  "script carrying those bytes (any non-empty chunks, pend anywhere, then FIN) the documented receive pattern, "
-                  "every call awaited, over the FrameStream model hands over the same head, header map (per-name order kept), "
-                  "body = concatenation of the pieces, trailers, exactly one clean end, no error, under size <= "
-                  "max_field_section_size (C10) — proved directly from the C02 invariant, no FrameSim hypothesis, no limit on "
-                  "the number of fields (D-01 repaired); C01_delivered_parts — same method, scheme, authority, path / status; "
-                  "C01_end_to_end — the composition for requests and responses; C01_field_count_refused — the only limit left "
-                  "is http::HeaderMap's 24576 distinct names, which neither the sender's map can hold nor the receiver's; "
-                  "C01_interleaving_irrelevant_partial — the record of a request stream after ANY run of the C14 connection "
-                  "machine depends only on the steps addressing it, receive components share only the error cell which every "
-                  "call leaves alone unless it answers a connection error, split halves act on disjoint components (_partial: "
-                  "the connection driver is not a component of the interleaving products)")
+                  "deliver; Model/Split.lean: split(); H3.Iso: C07's product machine): C01_wire_of_send — for every "
+                  "well-formed message and EVERY family of write-acceptance scripts (partial writes, Pending anywhere; calls "
+                  "awaited, R-14) the request stream is handed exactly wire(m) (+ the grease frame if owed) and finished (from "
+                  "C14); C01_wire_is_valid_message — the RFC 9114 oracle reads wire(m) as [HEADERS section, DATA "
+                  "piece_1..piece_n, (HEADERS trailers)?] and a clean end, the sections RFC-9204-decode to pseudo fields ++ map "
+                  "iteration (C11, C12); C01_recv_of_wire — for EVERY transport script carrying those bytes (any non-empty "
+                  "chunks, pend anywhere, then FIN) the documented receive pattern, every call awaited, over the FrameStream "
+                  "model hands over the same head, header map (per-name order kept), body = concatenation of the pieces, "
+                  "trailers, exactly one clean end, no error, under size <= max_field_section_size (C10); C01_head_survives — "
+                  "'the head survives the trip' (HeadOk) is DERIVED from the laws of the http crate for heads made of values "
+                  "of the crate, absolute-form and authority-form (CONNECT) targets, and what arrives is expectedHead(m); "
+                  "C01_delivered_parts — same method, scheme, authority, path / status; C01_end_to_end — the composition for "
+                  "requests and responses, HeadOk no longer a hypothesis; C01_field_count_refused — the only limit left is "
+                  "http::HeaderMap's 24576 distinct names; C01_split_anywhere — split() is modelled field by field (buffer, eos, "
+                  "decoder memo, remaining_data, remembered trailers, size limit go to the receive half): the documented pattern "
+                  "split before ANY of its calls answers what the unsplit stream answers (= recvPattern on a fresh stream), any "
+                  "interleaving of receive polls, send steps and split() projects onto the two machines, split commutes with "
+                  "both (C01_recv_of_wire_split: the delivery theorem with a split anywhere); C01_end_to_end_interleaved — ONE "
+                  "interleaved sequence of the sending endpoint's machine steps (C14) and the receiving endpoint's events (C07 "
+                  "product: deliveries, polls of any stream re-polled after Pending, driver polls), any number of exchanges: "
+                  "every sender's stream is handed its message's bytes, every receiver's digest (ALL answers of all its polls, "
+                  "Pending left out) is its own message with exactly one head, exactly one Ok(None) counted in the digest, one "
+                  "trailers answer, nothing reset/stopped, cell empty, close never called, = deliver over any script with the "
+                  "same bytes; that the exchanges' streams never write the error cell is proved, not assumed; "
+                  "C01_interleaving_irrelevant_partial — machine projections and commutations (_partial: of the connection "
+                  "driver only the error side is a component of the product; tokio/Quinn scheduling and wakers not modelled)")
     level_note = ("trusted: Lean kernel + 3 axioms; component models tied by their own correspondence runs; the two-endpoint "
                   "SimQuic run (two real h3 endpoints joined by a scripted relay) ties the composition: the driver's MODEL half "
-                  "is H3.E2E.deliver over a chunking of H3.E2E.wire of the scenario's message, with the identity instance of "
-                  "the http parameter, so the http round-trip assumptions are checked on every case; tokio/Quinn scheduling "
-                  "not modelled (partial): granularity is one poll of one task or one transport event")
+                  "is H3.E2E.deliver over a chunking of H3.E2E.streamBytes of the scenario's message, with the identity instance "
+                  "of the http parameter, so the http round-trip assumptions are checked on every case; the projection keeps "
+                  "everything that happened (calls left pending, closes, resets, stops, unexpected answers) and model and "
+                  "specification say 'none'; tokio/Quinn scheduling not modelled (partial): granularity is one poll of one task "
+                  "or one transport event")
     rule = ("two real endpoints (client, server) over SimQuic joined by a relay that moves bytes only when the script says "
-            "so; messages from alphabets of methods, absolute/authority-form targets, duplicate header names, high-byte values, "
-            "bodies 0..64 KiB in arbitrary send pieces incl. empty ones, trailers or not; relay whole / in random 1..7-byte "
-            "pieces / partial per stream; sender back-pressure via write credit; receiving calls posted before or after the "
-            "data; executor order seeds; whole or split request streams; 1..2 concurrent requests; one exchange whose request "
-            "and response each carry more than 24576 fields (values under one name); non-trivial = the request head was "
-            "delivered")
+            "so; messages from alphabets of methods incl. CONNECT (authority-form target) and extended CONNECT (:protocol, "
+            "ec=1 on both endpoints), absolute-form targets, duplicate header names, high-byte values, bodies 0..64 KiB in "
+            "arbitrary send pieces incl. empty ones (64 KiB in 8..60 pieces in the thorough tier), trailers or not; grease "
+            "on/off per endpoint; a PRODUCT of: sender back-pressure via write credit on the client and/or the server (heads, "
+            "DATA and trailers partially written) x readers posted before / while / after the data arrives x relay whole / in "
+            "random 1..7-byte pieces / partial per stream x reader shapes (one loop; recv_data, split mid-body, loop on the "
+            "receive half; body to its end, split with the trailers remembered, recv_trailers on the receive half; split "
+            "right after the head) on both endpoints x client streams whole / split before the body / split after the "
+            "response head with both halves in use at once (four tasks on one stream) x 1..4 concurrent requests x executor "
+            "order seeds; one exchange whose request and response each carry more than 24576 fields; non-trivial = the "
+            "request head was delivered")
     trusted = ["http crate (HeaderMap order, Uri/Method parsing and printing): parameter Http with HttpLaws (C12) and the "
-               "round-trip facts PseudoBack / HttpRoundTrip (parse(as_str(v)) = v for the crate's own Scheme, Authority, "
-               "PathAndQuery values; a built Uri has the parts it was built from), checked by the e2e run itself"]
+               "round-trip facts HttpRoundTrip (parse(as_str(v)) = v for the crate's own Scheme, Authority, PathAndQuery "
+               "values; a built Uri has the parts it was built from; scheme+authority+path build, an authority alone "
+               "builds), checked by the e2e run itself and by the verdict tables of C12's hdr engine"]
     assumptions = ["well-formed messages only (names lowercase tokens, values legal bytes; octets; fields the sender's own "
-                   "http::HeaderMap can hold: at most 24576 distinct names, any number of values)",
+                   "http::HeaderMap can hold: at most 24576 distinct names, any number of values; the head made of values "
+                   "of the http crate: HeadValues)",
                    "API programs are sequences of completed calls (R-14)",
-                   "transport chunks are non-empty; a delivery arriving after a poll is a `pend` in the script (R-T)",
+                   "transport chunks are non-empty; scripted transports: a delivery arriving after a poll is a `pend` in "
+                   "the script (R-T); in C01_end_to_end_interleaved deliveries are events of the history",
                    "field sections within the receiver's max_field_section_size and the peer's advertised limit (C10)"]
 
+    # results a call of a request-stream task may have without the projection mentioning it
+    QUIET = re.compile(r"^(ok|req:\d+)$")
+    # tasks whose pending call is the endpoint's driver (accept loop / wait_idle), not a call of an exchange
+    DRIVERS = ("c.drv.W", "s.conn.A")
+
     def project(self, line, impl):
+        """What the model and the specification predict, and EVERYTHING ELSE that happened: per request
+        stream the answers of `res|rr` and of the reader loop `rm` (body bytes handed out by single
+        `rd` calls made before the loop are joined to it); then, per endpoint, the calls left pending
+        (the two drivers aside), the codes the endpoint closed the connection with, the RESET_STREAM /
+        STOP_SENDING it sent on request streams (unidirectional streams — grease, QPACK — are C04's),
+        MISUSE/OVERLAP/writing flags of the transport; then `extra=`: every other answer of any task that
+        is not a plain success — an `rd` that answered `end` or an error, a failed sending call, an error
+        of the accept loop or of `wait_idle`, `no-task`, `bad-cmd`."""
         if " | " not in impl:
             return impl
-        trace = impl.split(" | ")[0].split()
+        tr, summ = impl.split(" | ", 1)
+        trace = tr.split()
         reqs, resps = {}, {}
+        extra = []
         first = {}     # bytes handed out by single recv_data calls made before the reader loop (they are body bytes)
+        ended = {}     # streams whose body loop was run call by call (`rda`) and has answered `end`: `rt` completes it
         for t in trace:
             m = re.match(r"^([sc])\.q(\d+)\.rd=data:([0-9a-f]+)$", t)
-            if m:
+            if m and (m.group(1), m.group(2)) not in ended:
                 first[(m.group(1), m.group(2))] = first.get((m.group(1), m.group(2)), "") + m.group(3)
                 continue
+            m = re.match(r"^([sc])\.q(\d+)\.rd=end$", t)
+            if m and (m.group(1), m.group(2)) not in ended:
+                ended[(m.group(1), m.group(2))] = t
+                continue
+            # the reader loop taken apart (`rda`, then `rt` — a `split()` in between): recv_data until `end`,
+            # then recv_trailers = what `rm` prints; exactly one `end`, anything after it is an answer of its own
+            m = re.match(r"^([sc])\.q(\d+)\.rt=(.*)$", t)
+            if m and ended.get((m.group(1), m.group(2))):
+                key = (m.group(1), m.group(2))
+                ended[key] = None
+                t = "%s.q%s.rm=body:%s:%s" % (key[0], key[1], first.pop(key, "") or "-", m.group(3))
             m = re.match(r"^([sc])\.q(\d+)\.rm=body:([0-9a-f-]+):(.*)$", t)
             if m and (m.group(1), m.group(2)) in first:
                 body = first.pop((m.group(1), m.group(2))) + (m.group(3) if m.group(3) != "-" else "")
@@ -78,14 +129,53 @@ class C01(Prop):
             m = re.match(r"^s\.q(\d+)\.(res|rm)=(.*)$", t)
             if m:
                 reqs.setdefault(int(m.group(1)), []).append("s.q%s.%s=%s" % m.groups())
+                continue
             m = re.match(r"^c\.q(\d+)\.(rr|rm)=(.*)$", t)
             if m:
                 resps.setdefault(int(m.group(1)), []).append("c.q%s.%s=%s" % m.groups())
+                continue
+            res = t.split("=", 1)[1] if "=" in t else t
+            if not self.QUIET.match(res):
+                extra.append(t)
+        extra += [t for t in ended.values() if t]
+        # body bytes of `rd` calls that no reader loop followed are an answer of their own
+        for (side, sid), b in sorted(first.items()):
+            extra.append("%s.q%s.rd=data:%s" % (side, sid, b))
         out = []
         for sid in sorted(reqs):
             out += reqs[sid]
         for sid in sorted(resps):
             out += resps[sid]
+        m = re.match(r"^C\[(.*)\] S\[(.*)\]$", summ)
+        if not m:
+            return " ".join(out + ["summary=" + summ.replace(" ", "_")])
+        for side, part in (("c", m.group(1)), ("s", m.group(2))):
+            pending, closed, rst, stop, flags = [], [], [], [], []
+            for tok in part.split():
+                k = re.match(r"^(\d+):tx=([0-9a-f-]*)(.*)$", tok)
+                if k:
+                    sid = int(k.group(1))
+                    for f in k.group(3).split(","):
+                        if f.startswith("rst=") and sid % 4 == 0:
+                            rst.append("%d:%s" % (sid, f[4:]))
+                        elif f.startswith("stop=") and sid % 4 == 0:
+                            stop.append("%d:%s" % (sid, f[5:]))
+                        elif f in ("MISUSE", "OVERLAP") or (f == "writing" and sid % 4 == 0):
+                            flags.append("%d:%s" % (sid, f))
+                    continue
+                k = re.match(r"^(pending|closed|dgrams|fired)=\[(.*)\]$", tok)
+                if k and k.group(1) == "pending":
+                    pending = [x for x in k.group(2).split(",") if x and x not in self.DRIVERS]
+                elif k and k.group(1) == "closed":
+                    closed = [x for x in k.group(2).split(",") if x]
+                elif k:
+                    flags.append(tok)
+                else:
+                    flags.append(tok)
+            out += ["%s.pending=%s" % (side, ",".join(pending) or "-"), "%s.closed=%s" % (side, ",".join(closed) or "-"),
+                    "%s.rst=%s" % (side, ",".join(rst) or "-"), "%s.stop=%s" % (side, ",".join(stop) or "-")]
+            extra += ["%s:%s" % (side, f) for f in flags]
+        out.append("extra=" + (",".join(extra) or "-"))
         return " ".join(out)
 
     def klass_raw(self, line, raw):
@@ -93,14 +183,59 @@ class C01(Prop):
         feats = []
         feats.append("split" if ".sp" in line else "whole")
         feats.append("bp" if "wc=" in w[1] or "wc=" in w[2] else "free")
+        feats.append("grease" if "g1" in w[1].split(",") or "g1" in w[2].split(",") else "plain")
         feats.append("pieces" if "~" in line else "wholechunks")
         feats.append("tr" if ".st:" in line else "notr")
+        if "R:CONNECT" in line:
+            feats.append("connect")
         n = len(re.findall(r"c\.snd\.R:", line))
-        ok = len(re.findall(r"\.rm=body:", raw))
+        ok = len(re.findall(r"\.rm=body:|\.rt=", raw))
         return "reqs=%d %s delivered=%d" % (n, ",".join(feats), ok)
 
     def trivial_raw(self, line, raw):
         return ".res=ok:" not in raw
+
+    def features(self, line):
+        """which cells of the product a case line covers (coverage table of the evidence / DESIGN)"""
+        w = line.split()
+        cbp, sbp = "wc=" in w[1], "wc=" in w[2]
+        ops = w[3:]
+        f = set()
+        if cbp or sbp:
+            f.add("bp")
+        if "g1" in w[1].split(",") or "g1" in w[2].split(","):
+            f.add("grease")
+        first_full = {}
+        for k, op in enumerate(ops):
+            if re.match(r"^>(>|~\d+)$", op):
+                first_full.setdefault(">", k)
+        # a reader loop / head call posted before the last sending call of its message
+        last_cs = max([k for k, op in enumerate(ops) if re.match(r"^c\.q\d+s?\.(sd|st|fi)", op)] or [-1])
+        early = any(re.match(r"^s\.q\d+\.(rm|rd|rda)$", op) and k < last_cs for k, op in enumerate(ops))
+        if early:
+            f.add("early")
+        if cbp and early:
+            f.add("bp*early")
+        if any(re.match(r"^s\.q\d+\.rd$", op) for op in ops):
+            f.add("midsplit")
+            if cbp:
+                f.add("bp*midsplit")
+        if any(re.match(r"^[sc]\.q\d+\.rda$", op) for op in ops):
+            f.add("endsplit")
+        if sbp and re.search(r"s:cw\d+:0", line):
+            f.add("resp-partial")
+        if "R:CONNECT:" in line:
+            f.add("connect")
+        if "R:CONNECT+" in line:
+            f.add("xconnect")
+        # the client's send half still sends after its receive half has been given the response head
+        for m in re.finditer(r"c\.q(\d+)\.rr ", line):
+            rest = line[m.end():]
+            if re.search(r"c\.q%ss\.(sd|st|fi)" % m.group(1), rest) and ("c.q%s.sp" % m.group(1)) in rest:
+                f.add("duplex")
+        n = len(re.findall(r"c\.snd\.R:", line))
+        f.add("reqs=%d" % n)
+        return f
 
     def headers(self, rng, maxn=5):
         hs = []
@@ -119,133 +254,175 @@ class C01(Prop):
         sizes = [rng.choice([0, 1, 2, 3, 63, 64, 100]) for _ in range(rng.randrange(1, 5))]
         if kind > 0.9:
             sizes = [rng.choice([1000, 16383, 16384, 16385]) for _ in range(rng.randrange(1, 3))]
-        if big and kind > 0.97:
+        if big and kind > 0.985:
             sizes = [65536]
-        return [bytes(rng.getrandbits(8) for _ in range(n)).hex() or "-" for n in sizes]
+        elif big and kind > 0.96:
+            # 64 KiB handed over in many pieces of uneven sizes (empty ones included)
+            n = rng.randrange(8, 60)
+            cuts = sorted(rng.randrange(0, 65537) for _ in range(n - 1))
+            sizes = [b - a for a, b in zip([0] + cuts, cuts + [65536])]
+        return [rng.randbytes(n).hex() or "-" for n in sizes]
+
+    def message(self, rng, big):
+        return {"hdrs": self.headers(rng), "pieces": self.body_pieces(rng, big),
+                "trailers": self.headers(rng, 3) if rng.random() < 0.4 else None}
+
+    @staticmethod
+    def nonempty(msg):
+        return any(p != "-" for p in msg["pieces"])
+
+    def reader(self, rng, task, head, msg, may_split):
+        """the receiving application's calls on one stream: the head call, then the documented loop — as one
+        reader loop (`rm`), or taken apart around a `split()`: a first `recv_data`, split in the middle of the
+        body, the loop on the receive half (`rd sp rm`); the body to its end, split with the trailers already
+        remembered by the stream, `recv_trailers` on the receive half (`rda sp rt`); split right after the head
+        (`sp rm`).  Returns (ops, did it split)."""
+        modes = ["rm", "rm"]
+        if may_split:
+            modes += ["sp-first", "end-split"] + (["mid", "mid"] if self.nonempty(msg) else [])
+        mode = rng.choice(modes)
+        cmds = {"rm": ["rm"], "sp-first": ["sp", "rm"], "mid": ["rd", "sp", "rm"], "end-split": ["rda", "sp", "rt"]}[mode]
+        return ["%s.%s" % (task, c) for c in [head] + cmds], mode != "rm"
 
     def one_case(self, rng, big):
         seed = rng.randrange(0, 1000)
-        bp = rng.random() < 0.3
-        ccfg = "g0,seed=%d" % seed + (",wc=0" if bp else "")
-        scfg = "g0" + (",wc=0" if bp and rng.random() < 0.5 else "")
-        sbp = "wc=0" in scfg
+        cg, sg = rng.random() < 0.4, rng.random() < 0.4
+        cbp, sbp = rng.random() < 0.35, rng.random() < 0.35
+        ec = rng.random() < 0.15
+        ccfg = ",".join(["g1" if cg else "g0", "seed=%d" % seed] + (["wc=0"] if cbp else []) + (["ec=1"] if ec else []))
+        scfg = ",".join(["g1" if sg else "g0"] + (["wc=0"] if sbp else []) + (["ec=1"] if ec else []))
         ops = []
-        if bp:
+        if cbp:
             ops += ["c:gw2:100", "c:gw6:9", "c:gw10:9"]
         if sbp:
             ops += ["s:gw3:100", "s:gw7:9", "s:gw11:9"]
         ops += [">>", "<<", "s.conn.AL", "c.drv.W"]
-        nreq = rng.choice([1, 1, 1, 2])
+        if (cg or sg) and rng.random() < 0.7:
+            # the grease streams (opened once the peer's SETTINGS have been read) get credit and are relayed
+            ops += ["c:gw14:1000", "s:gw15:1000", ">>", "<<"]
         relay = lambda d: rng.choice(["%s%s" % (d, d), "%s~%d" % (d, rng.randrange(1, 99999))])
+        small = lambda: rng.choice([1, 2, 3, 5, 7, 9, 17, 40, 100, 200])
+        nreq = rng.choice([1, 1, 1, 2, 2, 3, 4])
         streams = []
+        # ---- phase 1: the requests' heads
         for i in range(nreq):
             sid = 4 * i
-            method = rng.choice(METHODS)
-            uri = rng.choice(URIS)
-            ops.append("c.snd.R:%s:%s:%s" % (method, hexs(uri), self.headers(rng)))
-            if bp:
+            k = rng.random()
+            if k < 0.12:
+                method, uri = "CONNECT", rng.choice(AUTHORITIES)
+            elif ec and k < 0.5:
+                method, uri = "CONNECT+" + rng.choice(PROTOCOLS), rng.choice(URIS)
+            else:
+                method, uri = rng.choice(METHODS), rng.choice(URIS)
+            st = {"sid": sid, "req": self.message(rng, big), "resp": self.message(rng, big), "status": rng.choice(STATUS),
+                  "csender": "c.q%d" % sid, "ssender": "s.q%d" % sid, "csplit": False, "ssplit": False, "sr_sent": False}
+            ops.append("c.snd.R:%s:%s:%s" % (method, hexs(uri), st["req"]["hdrs"]))
+            if cbp:
                 # let the request head through (in a few partial writes), then throttle the body
-                for k in (rng.choice([1, 2, 7]), rng.choice([1, 50]), 100000):
-                    ops.append("c:gw%d:%d" % (sid, k))
+                for g in (rng.choice([1, 2, 7]), rng.choice([1, 50]), 100000):
+                    ops.append("c:gw%d:%d" % (sid, g))
                 ops.append("c:cw%d:0" % sid)
-            streams.append(sid)
-        # early receive calls (posted before anything arrived)
-        early = (not bp) and rng.random() < 0.5
-        plan = []
-        for sid in streams:
-            sender = "c.q%d" % sid
-            if rng.random() < 0.3:
-                plan.append("c.q%d.sp" % sid)
-                sender = "c.q%ds" % sid
-            for p in self.body_pieces(rng, big):
-                plan.append("%s.sd:%s" % (sender, p))
-            if rng.random() < 0.4:
-                plan.append("%s.st:%s" % (sender, self.headers(rng, 3)))
-            plan.append("%s.fi" % sender)
-        # interleave the plans of different streams keeping per-stream order
-        per = {}
-        for op in plan:
-            per.setdefault(re.match(r"c\.q(\d+)", op).group(1), []).append(op)
-        seqs = list(per.values())
-        merged = []
-        while any(seqs):
-            s = rng.choice([q for q in seqs if q])
-            merged.append(s.pop(0))
-            if rng.random() < 0.3:
-                merged.append(relay(">"))
-            if bp and rng.random() < 0.7:
-                merged.append("c:gw%d:%d" % (rng.choice(streams), rng.choice([1, 3, 7, 100, 100000])))
-        early_rm = set()
-        if early:
-            # the server task exists once the stream has been accepted: let one byte through first
-            for sid in streams:
-                ops += [">%d:1" % sid, "s.q%d.res" % sid]
+            st["cmode"] = rng.choice(["whole", "whole", "early-split", "duplex"])
+            if st["cmode"] == "early-split":
+                ops.append("c.q%d.sp" % sid)
+                st["csender"], st["csplit"] = "c.q%ds" % sid, True
+            streams.append(st)
+        # the server meets the streams: whole heads, or (not for `duplex`) a single byte first
+        for st in streams:
+            st["accept1"] = st["cmode"] != "duplex" and rng.random() < 0.3
+            ops.append(">%d:%s" % (st["sid"], "1" if st["accept1"] else "*"))
+        # ---- phase 2: the request bodies are sent while (some of) the server's readers already run
+        lists = []
+        late_readers = []
+        for st in streams:
+            sid, L = st["sid"], []
+            if st["cmode"] == "duplex":
+                # the server splits at once and answers from its send half while its receive half reads the request;
+                # the client is given the response head, splits, and goes on sending from its send half while its
+                # receive half reads the response: four tasks on one stream
+                L += ["s.q%d.res" % sid, "s.q%d.sp" % sid, "s.q%ds.sr:%d:%s" % (sid, st["status"], st["resp"]["hdrs"])]
+                st["ssender"], st["ssplit"], st["sr_sent"] = "s.q%ds" % sid, True, True
+                if sbp:
+                    L += ["s:gw%d:%d" % (sid, rng.choice([1, 3])), "s:gw%d:100000" % sid, "s:cw%d:0" % sid]
+                L += ["<%d:*" % sid, "c.q%d.rr" % sid, "c.q%d.sp" % sid]
+                st["csender"], st["csplit"] = "c.q%ds" % sid, True
+                st["creader_posted"] = True
+                L.append("c.q%d.rm" % sid)
+                L.append("s.q%d.rm" % sid)
+            else:
+                r, split = self.reader(rng, "s.q%d" % sid, "res", st["req"], True)
+                if split:
+                    st["ssender"], st["ssplit"] = "s.q%ds" % sid, True
                 if rng.random() < 0.6:
-                    # the reader loop runs while the message is still arriving: every delivery below wakes it
-                    ops.append("s.q%d.rm" % sid)
-                    early_rm.add(sid)
-            # deliveries in small steps between the sender's calls
-            trick = []
-            for op in merged:
-                trick.append(op)
-                if rng.random() < 0.5:
-                    trick.append(">%d:%d" % (rng.choice(streams), rng.choice([1, 2, 3, 5, 9, 17, 40, 200])))
-            merged = trick
-        ops += merged
-        if bp:
-            for sid in streams:
-                ops.append("c:gw%d:10000000" % sid)
-        server_split = set()
-        if not early and not bp and rng.random() < 0.35:
-            # the application reads the beginning of the body from the whole stream, splits it in the middle of
-            # a DATA frame, and goes on reading from the receive half
-            for sid in streams:
-                ops += [">%d:%d" % (sid, rng.choice([40, 60, 100, 300, 1000])), "s.q%d.res" % sid, "s.q%d.rd" % sid, "s.q%d.sp" % sid]
-                server_split.add(sid)
-        ops.append(relay(">"))
-        for sid in streams:
-            if not early and sid not in server_split:
-                ops.append("s.q%d.res" % sid)
-            if sid not in early_rm:
-                ops.append("s.q%d.rm" % sid)
-        # responses
-        for sid in streams:
-            sender = "s.q%ds" % sid if sid in server_split else "s.q%d" % sid
-            ops.append("%s.sr:%d:%s" % (sender, rng.choice(STATUS), self.headers(rng)))
-            if sbp:
-                for k in (rng.choice([1, 3]), 10000000):
-                    ops.append("s:gw%d:%d" % (sid, k))
-            if sid in server_split:
-                sender = "s.q%ds" % sid
-            elif rng.random() < 0.3:
-                ops.append("s.q%d.sp" % sid)
-                sender = "s.q%ds" % sid
-            for p in self.body_pieces(rng, big):
-                ops.append("%s.sd:%s" % (sender, p))
-                if rng.random() < 0.3:
-                    ops.append(relay("<"))
+                    L += r       # posted before the message is there
+                else:
+                    late_readers += r
+            body = ["%s.sd:%s" % (st["csender"], p) for p in st["req"]["pieces"]]
+            if st["req"]["trailers"] is not None:
+                body.append("%s.st:%s" % (st["csender"], st["req"]["trailers"]))
+            body.append("%s.fi" % st["csender"])
+            lists.append(L + body if st["cmode"] == "duplex" else self.merge(rng, [L, body]))
+        merged = self.merge(rng, lists)
+        sids = [st["sid"] for st in streams]
+        for op in merged:
+            ops.append(op)
+            if cbp and re.match(r"^c\.q\d+s?\.(sd|st|fi)", op) and rng.random() < 0.7:
+                ops.append("c:gw%d:%d" % (rng.choice(sids), rng.choice([1, 3, 7, 100, 100000])))
             if rng.random() < 0.4:
-                ops.append("%s.st:%s" % (sender, self.headers(rng, 3)))
-            ops.append("%s.fi" % sender)
-            if rng.random() < 0.5:
-                ops.append("c.q%d.rr" % sid)
+                ops.append(rng.choice([">%d:%d" % (rng.choice(sids), small()), relay(">")]))
+        if cbp:
+            for sid in sids:
+                ops.append("c:gw%d:10000000" % sid)
+        ops.append(relay(">"))
+        ops += late_readers
+        # ---- phase 3: the responses
+        lists = []
+        late_readers = []
+        for st in streams:
+            sid, M = st["sid"], []
+            if not st["sr_sent"]:
+                M.append("%s.sr:%d:%s" % (st["ssender"], st["status"], st["resp"]["hdrs"]))
+                if sbp:
+                    M += ["s:gw%d:%d" % (sid, rng.choice([1, 3])), "s:gw%d:100000" % sid, "s:cw%d:0" % sid]
+                if not st["ssplit"] and rng.random() < 0.3:
+                    M.append("s.q%d.sp" % sid)
+                    st["ssender"], st["ssplit"] = "s.q%ds" % sid, True
+            for p in st["resp"]["pieces"]:
+                M.append("%s.sd:%s" % (st["ssender"], p))
+            if st["resp"]["trailers"] is not None:
+                M.append("%s.st:%s" % (st["ssender"], st["resp"]["trailers"]))
+            M.append("%s.fi" % st["ssender"])
+            if not st.get("creader_posted"):
+                r, _ = self.reader(rng, "c.q%d" % sid, "rr", st["resp"], not st["csplit"])
                 if rng.random() < 0.5:
-                    ops.append("c.q%d.rm" % sid)
-                    for _ in range(rng.randrange(0, 6)):
-                        ops.append("<%d:%d" % (sid, rng.choice([1, 2, 3, 5, 9, 17, 40, 200])))
+                    M = self.merge(rng, [M, r])
+                else:
+                    late_readers += r
+            lists.append(M)
+        for op in self.merge(rng, lists):
+            ops.append(op)
+            if sbp and re.match(r"^s\.q\d+s?\.(sd|st|fi)", op) and rng.random() < 0.7:
+                ops.append("s:gw%d:%d" % (rng.choice(sids), rng.choice([1, 3, 7, 100, 100000])))
+            if rng.random() < 0.4:
+                ops.append(rng.choice(["<%d:%d" % (rng.choice(sids), small()), relay("<")]))
+        if sbp:
+            for sid in sids:
+                ops.append("s:gw%d:10000000" % sid)
         ops.append(relay("<"))
-        for sid in streams:
-            ops += ["c.q%d.rr" % sid, "c.q%d.rm" % sid]
-        # a second rr is answered no-task? no: rr twice would read the next frame; avoid duplicates
-        seen_rr = set()
+        ops += late_readers
+        return "e2e %s %s %s" % (ccfg, scfg, " ".join(ops))
+
+    @staticmethod
+    def merge(rng, lists):
+        """a random interleaving that keeps the order inside each list"""
+        seqs = [list(l) for l in lists if l]
         out = []
-        for op in ops:
-            if op.endswith(".rr") or re.match(r"^c\.q\d+\.rm$", op):
-                if op in seen_rr:
-                    continue
-                seen_rr.add(op)
-            out.append(op)
-        return "e2e %s %s %s" % (ccfg, scfg, " ".join(out))
+        while seqs:
+            q = rng.choice(seqs)
+            out.append(q.pop(0))
+            if not q:
+                seqs.remove(q)
+        return out
 
     def many_fields_case(self):
         """D-01 (repaired): a request and a response with more than 24576 fields each — values under one
@@ -257,16 +434,36 @@ class C01(Prop):
 
     def cases(self, tier, rng):
         big = tier == "thorough"
-        return [self.one_case(rng, big) for _ in range(4000 if big else 700)] + [self.many_fields_case()]
+        return [self.one_case(rng, big) for _ in range(12000 if big else 2500)] + [self.many_fields_case()]
 
     def shrink_candidates(self, line):
+        """Smaller lines that are still complete scenarios (a line that merely leaves something pending — a
+        relay or a credit grant taken away — fails for a reason of its own and would mislead): drop the whole
+        last exchange (highest stream id: every op of its tasks, its relays and grants, its `send_request`);
+        drop one partial relay `><sid>:<k>` / one small credit grant (the whole relays and the final grants
+        stay)."""
         w = line.split()
         ops = w[3:]
         out = []
-        for i in range(len(ops)):
-            if ops[i] in ("s.conn.AL", "c.drv.W"):
-                continue
-            out.append(" ".join(w[:3] + ops[:i] + ops[i + 1:]))
+        n = len([op for op in ops if op.startswith("c.snd.R:")])
+        if n > 1:
+            sid = 4 * (n - 1)
+            pat = re.compile(r"^([cs]\.q%ds?\.|[<>]x?%d:|[cs]:[gc]w%d:)" % (sid, sid, sid))
+            keep, seen = [], 0
+            for op in ops:
+                if op.startswith("c.snd.R:"):
+                    seen += 1
+                    if seen == n:
+                        continue
+                if pat.match(op):
+                    continue
+                keep.append(op)
+            out.append(" ".join(w[:3] + keep))
+        start = ops.index("c.drv.W") + 1 if "c.drv.W" in ops else 0
+        for i in range(start, len(ops)):
+            m = re.match(r"^[<>]\d+:(\d+)$", ops[i]) or re.match(r"^[cs]:gw\d+:(\d+)$", ops[i])
+            if m and int(m.group(1)) <= 1000:
+                out.append(" ".join(w[:3] + ops[:i] + ops[i + 1:]))
         return out
 
 
